@@ -36,8 +36,9 @@ Outcomes(st, o) ==
     [] o.op = "read" ->      \* n = -1: everything left
          LET k == IF o.n = -1 THEN Len(Rest(st)) ELSE Min2(o.n, Len(Rest(st))) IN
          {Out([st EXCEPT !.pos = @ + k], Ok(SubSeq(st.data, st.pos + 1, st.pos + k)))}
-    [] o.op = "readline" ->
-         {Out([st EXCEPT !.pos = @ + LineLen(st)], Ok(SubSeq(st.data, st.pos + 1, st.pos + LineLen(st))))}
+    [] o.op = "readline" ->      \* o.n = -1: no limit; otherwise at most o.n units of the line
+         LET k == IF o.n = -1 THEN LineLen(st) ELSE Min2(o.n, LineLen(st)) IN
+         {Out([st EXCEPT !.pos = @ + k], Ok(SubSeq(st.data, st.pos + 1, st.pos + k)))}
     [] o.op = "next" ->
          IF st.pos = Len(st.data) THEN {Out(st, Err("StopIteration"))}
          ELSE {Out([st EXCEPT !.pos = @ + LineLen(st)], Ok(SubSeq(st.data, st.pos + 1, st.pos + LineLen(st))))}
@@ -45,6 +46,10 @@ Outcomes(st, o) ==
          {Out([st EXCEPT !.pos = Len(st.data)], Ok(Lines(st)))}
     [] o.op = "seek" -> IF o.n <= Len(st.data) THEN {Out([st EXCEPT !.pos = o.n], Ok(<<o.n>>))} ELSE {}
     [] o.op = "seek_end" -> {Out([st EXCEPT !.pos = Len(st.data)], Ok(<<Len(st.data)>>))}
+    (* other spellings of a position inside the data: relative to the current position (o.n may be negative, o.piece  *)
+    (* unused), back from the end (o.n >= 0), and the no-move seek(0, 1)                                             *)
+    [] o.op = "seek_cur" -> IF st.pos + o.n >= 0 /\ st.pos + o.n <= Len(st.data) THEN {Out([st EXCEPT !.pos = st.pos + o.n], Ok(<<st.pos + o.n>>))} ELSE {}
+    [] o.op = "seek_back_from_end" -> IF o.n <= Len(st.data) THEN {Out([st EXCEPT !.pos = Len(st.data) - o.n], Ok(<<Len(st.data) - o.n>>))} ELSE {}
     [] o.op = "tell" -> {Out(st, Ok(<<st.pos>>))}
     [] o.op = "getvalue" -> {Out(st, Ok(st.data))}
     [] o.op = "len" -> {Out(st, Ok(<<Len(st.data)>>))}
